@@ -325,7 +325,34 @@ fn main() {
                             let p = Performance::new(&map).difficulty(d.clone());
                             if map.mode == mode { p } else { p.try_mode(mode).ok().expect("convertible") }
                         };
+                        // the same settings through the calculator's own setters, applied to the calculator of the target mode
+                        let own = {
+                            let i = d.clone().inspect();
+                            let p = Performance::new(&map);
+                            let mut p = if map.mode == mode { p } else { p.try_mode(mode).ok().expect("convertible") };
+                            p = p.mods(i.mods.clone());
+                            if let Some(v) = i.clock_rate {
+                                p = p.clock_rate(v);
+                            }
+                            if let Some(v) = &i.ar {
+                                p = p.ar(v.value, v.with_mods);
+                            }
+                            if let Some(v) = &i.cs {
+                                p = p.cs(v.value, v.with_mods);
+                            }
+                            if let Some(v) = &i.hp {
+                                p = p.hp(v.value, v.with_mods);
+                            }
+                            if let Some(v) = &i.od {
+                                p = p.od(v.value, v.with_mods);
+                            }
+                            if let Some(v) = i.lazer {
+                                p = p.lazer(v);
+                            }
+                            p.calculate()
+                        };
                         let perfs = [
+                            ("configured through the calculator's own setters", own),
                             ("default score", base().calculate()),
                             ("n300 = 0, n100 = all", base().n300(0).n100(n).calculate()),
                             ("all misses", base().misses(n).calculate()),
